@@ -17,7 +17,9 @@ MANIFEST = {
 }
 RULE = (
     'Generated workflow (C01 domain plus runahead limit P0-P4 and an optional '
-    'stop-after cycle point), outcome assignments that include required-'
+    'stop-after cycle point; in a third of the cases 1-2 tasks have execution '
+    'retry delays of PT10M/PT1H on the virtual clock and fail once or more), '
+    'outcome assignments that include required-'
     'success failures and omitted required custom outputs, schedules of <=40 '
     'steps with delayed message delivery, then a fair drain.  Oracle on the '
     'pool snapshot taken by the monitor when the scheduler decides to shut '
@@ -27,8 +29,10 @@ RULE = (
     'before the stop point with some but not all prerequisite atoms '
     'satisfied.  On the snapshot taken when a stall is first reported: no '
     'active task, and no waiting unheld task with all prerequisites satisfied '
-    'that is either released or at/below the scheduler\'s current runahead '
-    'limit point.  At quiescence without shutdown (not paused, no stop '
+    '(whether or not it is still waiting out a retry delay: that needs no '
+    'intervention) that is either released or at/below the scheduler\'s '
+    'current runahead limit point.  Retry delays are then let elapse on the '
+    'virtual clock and the drain repeated.  At quiescence without shutdown (not paused, no stop '
     'requested): no waiting, unheld, released task with all prerequisites '
     'satisfied.  Non-trivial = the run stalled, or a finished task was '
     'incomplete, or a stop point cut the graph; distinct by (spec, outcomes).')
@@ -37,7 +41,8 @@ ASSUMPTIONS = [
     '(an undelivered message belongs to a task that is still active).',
     '"Never indefinitely" is decided as: at quiescence of the fair drain '
     '(25 idle iterations with nothing pending); cap hit = inconclusive.',
-    'No xtriggers or queue limits in this profile.',
+    'No user xtriggers or queue limits in this profile (a retry delay is '
+    'held by cylc as a wall-clock xtrigger on the task).',
 ]
 
 ACTIVE = ('preparing', 'submitted', 'running')
@@ -53,6 +58,23 @@ def cases(draw):
         spec['extra']['stop_after'] = draw(
             st.integers(spec['icp'], spec['fcp']))
     outcomes = draw(outcome_maps(spec))
+    # some tasks wait out a (virtual-clock) retry delay after a failure:
+    # they are waiting with satisfied prerequisites but cannot run yet, and
+    # no intervention is needed for them to make progress
+    if draw(st.integers(0, 2)) == 0:
+        k = draw(st.integers(1, min(2, len(spec['tasks']))))
+        for t in draw(st.lists(st.sampled_from(spec['tasks']), min_size=k,
+                               max_size=k, unique=True)):
+            n = draw(st.integers(1, 2))
+            spec['retries'][t] = {
+                'exec': n, 'submit': 0,
+                'exec_delays': [draw(st.sampled_from(['PT1H', 'PT10M']))] * n}
+            for p in range(spec['icp'], spec['fcp'] + 1):
+                if draw(st.integers(0, 1)) == 0:
+                    outcomes[f'{p}/{t}'] = [
+                        {'final': 'failed'}
+                        for _ in range(draw(st.integers(1, n + 1)))
+                    ] + [{'final': None}]
     sched = draw(schedules(40))
     delays = draw(st.lists(st.sampled_from([0, 0, 0, 1, 2, 4]),
                            min_size=1, max_size=8))
@@ -67,6 +89,13 @@ def check_case(case, ctx: Ctx) -> CaseResult:
 def ready(t):
     return (t['status'] == 'waiting' and t['prereqs_all'] and not t['held']
             and all(t.get('xtriggers', {}).values()))
+
+
+def can_progress_unaided(t):
+    """Waiting with every task prerequisite satisfied and not held: it will
+    run without intervention once its xtriggers / retry delay (a wall-clock
+    xtrigger) are satisfied, which needs no operator."""
+    return t['status'] == 'waiting' and t['prereqs_all'] and not t['held']
 
 
 def partially_satisfied(t):
@@ -91,8 +120,20 @@ async def _check(case, ctx: Ctx) -> CaseResult:
         sim.hooks.append(grab_limit)
         await sc.run_schedule()
         await sc.drain()
-        viol = sc.crash_violations('C03')
         classes = set()
+        # let retry delays elapse on the virtual clock (the fair drain only
+        # advances it by seconds), then drain again
+        for _round in range(6):
+            if not (sim.running and sc.quiescent) or not any(
+                    timer.timeout is not None
+                    for itask in sim.schd.pool.get_tasks()
+                    if itask.state('waiting')
+                    for timer in (itask.try_timers or {}).values()):
+                break
+            classes.add('waited-out-a-retry-delay')
+            sim.clock.advance(3700.0)
+            await sc.drain()
+        viol = sc.crash_violations('C03')
         stop_pt = spec['extra'].get('stop_after') or spec['fcp']
         for ev in sim.trace:
             if ev['k'] == 'set-stop' and ev['mode'] == 'AUTO':
@@ -128,10 +169,13 @@ async def _check(case, ctx: Ctx) -> CaseResult:
                         viol.append(Violation(
                             'C03:stall-with-active-task',
                             f'stall reported while {ident} is {t["status"]}'))
-                    elif ready(t) and (
+                    elif can_progress_unaided(t) and (
                             not t['runahead']
                             or (lim is not None
                                 and to_int.get(t['cycle'], 10**9) <= lim)):
+                        if not ready(t):
+                            classes.add('stall-check-with-pending-xtrigger-'
+                                        'or-retry-delay')
                         viol.append(Violation(
                             'C03:false-stall:ready-task-within-runahead-limit',
                             f'stall reported at iteration {ev["it"]} while '
